@@ -1,4 +1,5 @@
 """C02 - force routines compute the pairwise Newtonian sum: static necessary conditions."""
+import re
 from ..core import AnalysisError, anchor
 from .. import cfront
 from ..cfront import walk, render, line_of
@@ -197,7 +198,50 @@ def rule_pair_domains(ctx):
     ctx.covered('R02.8', 'iteration spaces of the direct, compensated and hybrid-interaction pair loops equal the specified pair set for every ordering of the counts and every gravity_ignore_terms', n, floor=150, samples=samples)
 
 
+DIM_SCOPE = [('gravity.c', None),
+             ('integrator_whfast.c', {'reb_whfast_interaction_step', 'reb_whfast_jump_step', 'reb_whfast_com_step'}),
+             ('integrator_mercurius.c', {'reb_integrator_mercurius_interaction_step', 'reb_integrator_mercurius_jump_step', 'reb_integrator_mercurius_kepler_step',
+                                         'reb_mercurius_encounter_predict', 'reb_integrator_mercurius_calculate_dcrit_for_particle', 'reb_integrator_mercurius_inertial_to_dh'}),
+             ('integrator_trace.c', {'reb_integrator_trace_interaction_step', 'reb_integrator_trace_jump_step', 'reb_integrator_trace_switch_default',
+                                     'reb_integrator_trace_switch_peri_default', 'reb_integrator_trace_inertial_to_dh'}),
+             ('integrator_leapfrog.c', None), ('integrator_eos.c', {'reb_integrator_eos_interaction_shell0', 'reb_integrator_eos_interaction_shell1', 'reb_integrator_eos_drift_shell1',
+                                                                       'reb_integrator_eos_drift_shell0'})]
+
+
+def rule_dimensions(ctx):
+    """R02.4: every sum, difference, accumulation and comparison in the force routines and in the kick/drift/jump
+    operators is dimensionally homogeneous over (L, T, M) with G = L^3 T^-2 M^-1 - a dropped or doubled G, mass, softening
+    or distance factor is a dimension clash."""
+    from . import e9
+    n = 0
+    samples = []
+    nfun = 0
+    for cfile, only in DIM_SCOPE:
+        tu = cfront.load_tu(cfile)
+        for name, fn in sorted(tu.funcs.items()):
+            if cfront.basename(fn.get('_locfile') or fn.get('_file')) != cfile:
+                continue
+            if only is not None and name not in only:
+                continue
+            params = {}
+            for p_ in cfront.params(fn):
+                if p_.get('name') in ('dt', '_dt', 'a', 'b', 'y') and 'double' in cfront.qtype(p_) and '*' not in cfront.qtype(p_):
+                    params[p_['name']] = e9.T_
+                if p_.get('name') == 'v' and 'double' in cfront.qtype(p_) and '*' not in cfront.qtype(p_):
+                    params['v'] = e9.D(0, 3, 0)        # weight of the jerk term: every caller passes a multiple of dt^3
+            t = e9.Typer(fn, params=params, names={'G': e9.G_, 'softening2': e9.D(2)}).run()
+            nfun += 1
+            n += t.checked
+            for line, what, a, b, txt in t.conflicts:
+                ctx.report('R02.4', '%s:dim:%s' % (name, re.sub(r'\s+', '', txt)[:48]), 'src/%s:%s %s' % (cfile, line, name),
+                           'dimension clash in %s: %s vs %s in %s' % (what, a, b, txt))
+            if t.checked and len(samples) < 6:
+                samples.append('src/%s %s: %d operations typed, %d not inferable, no clash' % (cfile, name, t.checked, t.unknown))
+    ctx.covered('R02.4', 'dimension typing (L,T,M) of the force routines and the kick/drift/jump operators of every scheme: %d functions' % nfun, n, floor=900, samples=samples)
+
+
 def run(ctx):
+    rule_dimensions(ctx)
     rule_pair_domains(ctx)
     from . import indexspace
     indexspace.rule_index_spaces(ctx, 'R02.9')
